@@ -457,6 +457,13 @@ def _mfpca_cases(rng: Rng, tier):
         P = rng.choice([2, 3])
         yield dict(kind="mfpca", method="covariance", sel=["int", k_req], comps=multi_lowrank(rng, P, rng.randint(9, 14), R=5),
                    uni=[3] * P, uni_keys="omitted", uni_method=uni_method, dk=f"multi-lowrank-P{P}-defaults")
+    # structured, every run: ONE non-default expansions list (method UFPCA, n_components ≠ 5) re-used by the full fit and the
+    # k-fits / fraction fits of the case, in both orders
+    for full_first in (False, True):
+        for sel in (["int", 2], ["frac", "9/10"]):
+            P = rng.choice([2, 3])
+            yield dict(kind="mfpca", method="covariance", sel=list(sel), comps=multi_lowrank(rng, P, rng.randint(9, 14), R=4),
+                       uni=[rng.choice([2, 3, 4]) for _ in range(P)], full_first=full_first, dk=f"multi-lowrank-P{P}-sharedargs")
     # covariance route with 2..4 components of different sizes and different numbers of univariate components
     for k in range(60 if tier == "thorough" else 8):
         P = [3, 3, 4, 2][k % 4]
@@ -539,20 +546,32 @@ def _multi(case):
     return MultivariateFunctionalData([dense([Fv(c["t"])], np.array(fl(Fm(c["X"])))) for c in case["comps"]])
 
 
-def _fit(case, sel_py):
-    """Fit the estimator of the case with `n_components = sel_py`; returns (estimator, captured call)."""
+def _fit(case, sel_py, shared=None):
+    """Fit the estimator of the case with `n_components = sel_py`; returns (estimator, captured call).
+
+    `shared` (one dict per case) holds the ARGUMENT OBJECTS that are re-used by every fit of the case, the way a user
+    writes a loop over n_components: ONE data object, ONE `univariate_expansions` list, ONE set of kwargs dictionaries —
+    passed to the full fit and to each k-fit / fraction fit.  A fit must not consume or alter them."""
     from FDApy.preprocessing.dim_reduction.mfpca import MFPCA
     from FDApy.preprocessing.dim_reduction.ufpca import UFPCA
 
+    shared = shared if shared is not None else {}
     with quiet(), EigCapture() as cap:
         if case["kind"] == "ufpca":
-            fd, _ = _dataset(case)
+            if "fd" not in shared:
+                shared["fd"] = _dataset(case)[0]
+                shared["kw"] = dict(kwargs_mean={}, kwargs_covariance={}, kwargs_innpro={})
+            fd = shared["fd"]
             est = UFPCA(method=case["method"], n_components=sel_py, normalize=case["normalize"])
-            est.fit(fd)
+            est.fit(fd, **shared["kw"])
             size = fd.n_obs if case["method"] == "inner-product" else fd.n_points[0]
         else:
-            mfd = _multi(case)
-            if case["method"] == "covariance":
+            if "mfd" not in shared:
+                shared["mfd"] = _multi(case)
+            mfd = shared["mfd"]
+            if case["method"] == "covariance" and "exps" in shared:
+                est = MFPCA(n_components=sel_py, method="covariance", univariate_expansions=shared["exps"])
+            elif case["method"] == "covariance":
                 uni = case.get("uni") or [3] * len(case["comps"])
                 if case.get("uni_keys") == "omitted":
                     # only the method is given: every other key (n_components, n_segments, penalty, …) at its default
@@ -561,6 +580,7 @@ def _fit(case, sel_py):
                     exps = [dict(method="PSplines", penalty=1.0, n_segments=k) for k in uni]
                 else:
                     exps = [dict(method="UFPCA", n_components=k) for k in uni]
+                shared["exps"] = exps          # the SAME list object for every later fit of this case
                 est = MFPCA(n_components=sel_py, method="covariance", univariate_expansions=exps)
             else:
                 est = MFPCA(n_components=sel_py, method="inner-product")
@@ -569,7 +589,7 @@ def _fit(case, sel_py):
     return est, cap.last(size)
 
 
-def _auto_fractions(case, full):
+def _auto_fractions(case, full, shared=None):
     """Fits with fractions derived from the cumulated shares of the n_components=None decomposition `full`."""
     res = []
     tot = sum(x for x in full if x == x)
@@ -588,7 +608,7 @@ def _auto_fractions(case, full):
             continue
         entry = dict(p=p)
         try:
-            est, call = _fit(case, p)
+            est, call = _fit(case, p, shared)
             entry["vals"] = [float(x) for x in np.asarray(est.eigenvalues)]
             if call is not None:
                 entry["raw_vals"], _ = raw_from_call(call)
@@ -653,8 +673,16 @@ def run_impl(case):
         out["full_vecs"] = _cols(fvec)
         return out
     # estimator level
+    shared = {}
+    if case.get("full_first") and case["sel"][0] != "all":
+        # the order a user's loop may also take: the full decomposition first, then the k-fit, with the same argument objects
+        try:
+            est_full0, _ = _fit(case, None, shared)
+            out["full_vals"] = [float(x) for x in np.asarray(est_full0.eigenvalues)]
+        except Exception as e:  # noqa: BLE001
+            out["full_error"] = err_class(e)
     try:
-        est, call = _fit(case, sel_py)
+        est, call = _fit(case, sel_py, shared)
     except Exception as e:  # noqa: BLE001
         out["error"] = err_class(e)
         out["msg"] = str(e)[:200]
@@ -719,11 +747,11 @@ def run_impl(case):
             except Exception as e:  # noqa: BLE001
                 out["fresh_error"] = err_class(e)
     if case.get("auto_fracs"):
-        out["auto"] = _auto_fractions(case, out["vals"])
+        out["auto"] = _auto_fractions(case, out["vals"], shared)
     # the full decomposition, for the prefix / leading clauses
-    if case["sel"][0] != "all":
+    if case["sel"][0] != "all" and "full_vals" not in out and "full_error" not in out:
         try:
-            est_full, _ = _fit(case, None)
+            est_full, _ = _fit(case, None, shared)
             out["full_vals"] = [float(x) for x in np.asarray(est_full.eigenvalues)]
         except Exception as e:  # noqa: BLE001
             out["full_error"] = err_class(e)
@@ -732,7 +760,7 @@ def run_impl(case):
     # the same data with one more component requested (prefix clause ACROSS requests)
     if case["sel"][0] == "int" and int(case["sel"][1]) >= 1:
         try:
-            est_next, _ = _fit(case, int(case["sel"][1]) + 1)
+            est_next, _ = _fit(case, int(case["sel"][1]) + 1, shared)
             out["next_vals"] = [float(x) for x in np.asarray(est_next.eigenvalues)]
         except Exception as e:  # noqa: BLE001
             out["next_error"] = err_class(e)
